@@ -37,8 +37,19 @@ def empty_spec(fluid):
     return s
 
 
+def _element_labels(rng, s):
+    """explicit, non-ascending / sparse index labels for the branch tables (their row order stays the creation order)"""
+    if rng.random() < 0.3:
+        for t in ("pipes", "pumps", "heat_exchangers", "flow_controls"):
+            if len(s[t]) > 1 and not any("index" in e for e in s[t]):
+                lab = _labels(rng, len(s[t]), str(rng.choice(["shuffled", "sparse"])))
+                for e, l in zip(s[t], lab):
+                    e["index"] = int(l)
+
+
 def _wall(rng, s):
     """pipes with a wall: the outer diameter (heat-loss perimeter) differs from the inner one (flow area)"""
+    _element_labels(rng, s)
     if s["pipes"] and rng.random() < 0.35:
         w = float(rng.choice([6.0, 12.0, 25.0]))
         for p in s["pipes"]:
@@ -201,6 +212,11 @@ def gen_hydraulic(rng, n_junc=None, fluid=None, features=None):
         if r < 0.06:
             s["mass_storages"].append({"junction": k, "mdot": float(rng.uniform(-0.1, 0.2)) * scale, "scaling": 1.0,
                                        "in_service": True})
+    if rng.random() < features.get("p_micro_load", 0.1) and n > 2:
+        # a vanishing but non-zero consumption (a leaking fitting, a rounding residue of a profile): admissible, and it gives
+        # its feeder a Reynolds number near zero, i.e. a huge laminar friction factor 64/Re next to ordinary ones
+        s["sinks"].append({"junction": int(rng.integers(1, n)), "mdot": float(rng.choice([1e-12, 1e-10])), "scaling": 1.0,
+                           "in_service": True})
     # outages
     if rng.random() < features.get("p_outage", 0.35):
         for _ in range(int(rng.integers(1, 3))):
